@@ -68,7 +68,7 @@ Proof.
   assert (Hn0 : (0 < n)%nat) by (unfold n; destruct body; [congruence|cbn; lia]).
   assert (Hc0 : 0 < clen) by (pose proof (Hlt 0%nat Hn0); lia).
   destruct HTab as (Texc & Tlines & Tranges & Tincr & Tframes & Tpoints).
-  unfold read_code_raw. cbn [code_in_of ci_code ci_exc ci_lines ci_ranges ci_frames ci_points].
+  unfold read_code_raw. cbn [code_in_of ci_code ci_exc ci_lines ci_ranges ci_frames ci_cldc ci_points].
   fold clen.
   destruct (N.eqb_spec clen 0) as [E0|_]; [lia|]. destruct (N.ltb_spec 65535 clen) as [E1|_]; [lia|]. cbn [orb].
   unfold clen at 1 2. rewrite (scan_encode ch body bs HE HT HL). fold posf. cbn [bind]. fold clen.
